@@ -40,7 +40,11 @@ pub fn vbincode_serialized_size<T: VSerde>(value: &T) -> (r: Result<u64, ()>)
 // ---- Take<R> + brotli::Decompressor<Take<R>>  (the reader of one compressed block)
 /// brotli::Decompressor::new(inner.take(limit), buffer_size): owns the inner reader, may consume at most `limit`
 /// bytes of it; allocates `buffer_size` bytes (C08 side condition: bounded by a constant)
-pub struct VDecompressor<R: VRead> { pub inner: R, pub start: Ghost<nat>, pub limit: Ghost<nat> }
+/// number of bytes the brotli stream found in data[pos .. pos+limit] decompresses to (a function of those bytes)
+pub uninterp spec fn brotli_total(data: Seq<u8>, pos: nat, limit: nat) -> nat;
+// Ghost: start/limit = the window of the inner reader this decompressor may consume; total = what that window decompresses to;
+// out = decompressed bytes delivered (read or skipped) so far.
+pub struct VDecompressor<R: VRead> { pub inner: R, pub start: Ghost<nat>, pub limit: Ghost<nat>, pub total: Ghost<nat>, pub out: Ghost<nat> }
 
 impl<R: VRead> VDecompressor<R> {
     pub open spec fn wf(&self) -> bool {
@@ -52,6 +56,7 @@ impl<R: VRead> VDecompressor<R> {
         requires inner.wf(),
             buffer_size <= 8 * 1024 * 1024,
         ensures r.wf(), r.inner == inner, r.start@ == inner.pos(), r.limit@ == limit,
+            r.out@ == 0, r.total@ == brotli_total(inner.data(), inner.pos(), limit as nat),
     { unimplemented!() }
 
     /// Read::read of the decompressor: decompressed bytes, Ok(0) at the end of the brotli stream or of the limited input
@@ -60,8 +65,13 @@ impl<R: VRead> VDecompressor<R> {
         requires old(self).wf(),
         ensures final(self).wf(), final(self).inner.data() == old(self).inner.data(),
             final(self).start == old(self).start, final(self).limit == old(self).limit,
-            final(buf)@.len() == old(buf)@.len(),
+            final(buf)@.len() == old(buf)@.len(), final(self).total == old(self).total,
             r is Ok ==> r->Ok_0 <= old(buf)@.len(),
+            // delivers the next bytes of the decompressed block; Ok(0) on a non-empty buffer only when the block is exhausted
+            r is Ok ==> final(self).out@ == old(self).out@ + r->Ok_0,
+            r is Err ==> final(self).out@ == old(self).out@,
+            (r is Ok && old(self).out@ <= old(self).total@) ==> final(self).out@ <= final(self).total@,
+            (r is Ok && r->Ok_0 == 0 && old(buf)@.len() > 0) ==> old(self).out@ >= old(self).total@,
     { unimplemented!() }
 
     /// io::copy(&mut (&mut decompressor).take(n), &mut io::sink())  [rewrite R8]: discards up to n decompressed bytes
@@ -69,8 +79,11 @@ impl<R: VRead> VDecompressor<R> {
     pub fn skip_take(&mut self, n: u64) -> (r: std::io::Result<u64>)
         requires old(self).wf(),
         ensures final(self).wf(), final(self).inner.data() == old(self).inner.data(),
-            final(self).start == old(self).start, final(self).limit == old(self).limit,
+            final(self).start == old(self).start, final(self).limit == old(self).limit, final(self).total == old(self).total,
             r is Ok ==> r->Ok_0 <= n,
+            // io::copy of a Take: copies until n bytes were obtained or the decompressor reports the end of its block
+            r is Ok ==> r->Ok_0 == smin(n as int, if old(self).total@ >= old(self).out@ { old(self).total@ - old(self).out@ } else { 0 }),
+            r is Ok ==> final(self).out@ == old(self).out@ + r->Ok_0,
     { unimplemented!() }
 
     /// decompressor.into_inner().into_inner(): gives the inner reader back, wherever it stands inside the block
@@ -88,6 +101,9 @@ pub fn vlayer_initialize<S: VStream>(s: &mut S) -> (r: Result<(), Error>)
     ensures final(s).wf(), final(s).data() == old(s).data(),
 { unimplemented!() }
 
+/// what bincode decodes at a position of a byte string: decoding is a FUNCTION of the bytes (two decodings of the same bytes agree)
+pub uninterp spec fn bincode_dec<T>(data: Seq<u8>, pos: nat) -> T;
+
 // bincode::options()[...].deserialize_from(src) without a Take: reads what the value needs, at most `limit` bytes  [rewrite R12]
 #[verifier::external_body]
 pub fn vbincode_deserialize<T: VSerde, S: VRead>(s: &mut S, limit: Option<u64>, fixint: bool) -> (r: Result<T, ()>)
@@ -97,6 +113,7 @@ pub fn vbincode_deserialize<T: VSerde, S: VRead>(s: &mut S, limit: Option<u64>, 
     ensures final(s).wf(), final(s).data() == old(s).data(),
         old(s).pos() <= final(s).pos() <= old(s).pos() + smin(limit->Some_0 as int, srem(old(s)) as int),
         r is Ok ==> r->Ok_0.fits(limit->Some_0) && old(s).data().subrange(old(s).pos() as int, final(s).pos() as int) == r->Ok_0.enc(),
+        r is Ok ==> r->Ok_0 == bincode_dec::<T>(old(s).data(), old(s).pos()),
 { unimplemented!() }
 
 /// Vec<u8> == &[u8; N] comparison
